@@ -84,6 +84,7 @@ type pathState struct {
 	inconclusive []string
 	violations   []Violation
 	rangeCount   int
+	mapMark      bool // set by vfMapOrderMark (map-order schedules)
 	floatTokens  []*Term
 	merging      int // >0 while executing a merged (if-converted) call
 	mergeDecs    []mergeDec
